@@ -193,6 +193,8 @@ namespace sim
         std::string pending_;
     };
 
+    // scheduling-point hook (schedsim): called at every upstream request / release
+    extern void (*g_upstream_hook)(const char*);
     // The exception the simulated upstream throws on an injected failure.
 } // namespace sim
 
